@@ -331,7 +331,16 @@ class NumpyShim:
             b = b.data if isinstance(b, SymArr) else b
             return _np.allclose(a, b, rtol=rtol, atol=atol, **kw)
         a, b = _flat(a), _flat(b)
-        mode = ALLCLOSE_MODE[0]
+        if len(a) == 1 and len(b) > 1:  # numpy broadcasting of a scalar / one-element operand
+            a = a * len(b)
+        elif len(b) == 1 and len(a) > 1:
+            b = b * len(a)
+        # the "exact" reading (steady state = exact fixed point) and the assume-hook belong to the solver's convergence test only; any
+        # other use of np.allclose in the package is the documented numpy predicate
+        import sys as _sys
+
+        in_solver = _sys._getframe(1).f_code.co_name == "_solve"
+        mode = ALLCLOSE_MODE[0] if in_solver else "tolerance"
         ts = []
         for x, y in zip(a, b):
             x, y = _t(x), _t(y)
@@ -341,7 +350,7 @@ class NumpyShim:
                 rt = _t(rtol)
                 ts.append(zabs(x - y) <= _t(atol) + mk_mul(rt, zabs(y)))
         c = SymBool(z3.And(*ts)) if ts else True
-        hook = ALLCLOSE_HOOK[0]
+        hook = ALLCLOSE_HOOK[0] if in_solver else None
         if hook is not None:
             return hook(c)
         return c
